@@ -457,9 +457,10 @@ def handle (j : Json) : Except String Json := do
       pure (fin (firstReject (Proto.cppR shape) 0 rops 0))
     | "pyR" =>
       let rops ← toks.mapM fun (t, i, _) => match t with
-        | "r" => pure (Proto.PROp.read i) | "x" => pure (Proto.PROp.exhaust i) | "c" => pure Proto.PROp.close
+        | "r" => pure (Proto.PROp.read i) | "x" => pure (Proto.PROp.exhaust i) | "p" => pure (Proto.PROp.abandon i) | "c" => pure Proto.PROp.close
         | _ => throw s!"bad prop {t}"
-      pure (fin (firstReject (Proto.pyR shape) 0 rops 0))
+      let r := firstReject (Proto.pyR shape) (0, false) rops 0
+      pure (fin (r.1, r.2.1))
     | _ => throw s!"bad machine {machine}"
   | "plan_of_schema" =>
     let txt ← (← j.getObjVal? "schema").getStr?
